@@ -324,6 +324,94 @@ func c12CloseWithBacklog(w *ndWriter, kind string, K int) int {
 	return rec.flush(w)
 }
 
+// a first function that runs for more than a second while a second submission is waiting: still one at a time, nothing the mailbox does
+// out of impatience may let the second one start before the first has ended
+func c12LongFirst(kind string, K int) *recorder {
+	rec := &recorder{}
+	rec.ev(E{"ev": "reset", "kind": kind, "k": K, "senders": 2, "s": 0, "i": 0})
+	var ran int32
+	entered := make(chan struct{}, 1)
+	body := func(m c12Msg, selfOK bool) {
+		rec.ev(E{"ev": "begin", "s": m.S, "i": m.I, "selfOK": selfOK})
+		if m.S == 1 {
+			entered <- struct{}{}
+			time.Sleep(1250 * time.Millisecond)
+		}
+		atomic.AddInt32(&ran, 1)
+		rec.ev(E{"ev": "end", "s": m.S, "i": m.I})
+	}
+	var post func(m c12Msg)
+	var closeFn func()
+	if kind == "handler" {
+		h := fpgo.Handler.NewByCh(make(chan func(), K))
+		post = func(m c12Msg) { h.Post(func() { body(m, true) }) }
+		closeFn = h.Close
+	} else {
+		var a *fpgo.ActorDef[c12Msg]
+		a = fpgo.ActorNewByOptionsGenerics(func(self *fpgo.ActorDef[c12Msg], m c12Msg) { body(m, self == a) }, make(chan c12Msg, K), map[string]interface{}{})
+		post = func(m c12Msg) { a.Send(m) }
+		closeFn = a.Close
+	}
+	post(c12Msg{1, 1})
+	stuck := false
+	select {
+	case <-entered:
+	case <-time.After(3 * time.Second):
+		stuck = true
+	}
+	second := make(chan struct{})
+	go func() { post(c12Msg{2, 1}); close(second) }() // waits for the busy mailbox (K = 0) or sits in its buffer
+	deadline := time.Now().Add(5 * time.Second)
+	for int(atomic.LoadInt32(&ran)) < 2 && time.Now().Before(deadline) {
+		time.Sleep(500 * time.Microsecond)
+	}
+	select {
+	case <-second:
+	case <-time.After(time.Second):
+		stuck = true
+	}
+	time.Sleep(2 * time.Millisecond)
+	rec.ev(E{"ev": "quiesce", "ran": int(atomic.LoadInt32(&ran)), "expect": 2, "stuck": stuck, "s": 0, "i": 0})
+	closeFn()
+	return rec
+}
+
+// an actor whose messages are interface values, nil among them: a nil message is a message like any other
+func c12NilMessages(w *ndWriter, K int) int {
+	rec := &recorder{}
+	rec.ev(E{"ev": "reset", "kind": "actor", "k": K, "senders": 1, "s": 0, "i": 0})
+	var ran int32
+	msgs := []interface{}{1, "two", nil, 3, nil, nil, 4}
+	var a *fpgo.ActorDef[interface{}]
+	a = fpgo.ActorNewByOptionsGenerics(func(self *fpgo.ActorDef[interface{}], m interface{}) {
+		i := int(atomic.AddInt32(&ran, 1))
+		ok := self == a && i <= len(msgs) && m == msgs[i-1]
+		rec.ev(E{"ev": "begin", "s": 1, "i": i, "selfOK": ok})
+		rec.ev(E{"ev": "end", "s": 1, "i": i})
+	}, make(chan interface{}, K), map[string]interface{}{})
+	sent := make(chan struct{})
+	go func() {
+		for _, m := range msgs {
+			a.Send(m)
+		}
+		close(sent)
+	}()
+	stuck := false
+	select {
+	case <-sent:
+	case <-time.After(2 * time.Second):
+		stuck = true // a Send that never returns: the mailbox stopped taking messages
+	}
+	deadline := time.Now().Add(2 * time.Second)
+	for int(atomic.LoadInt32(&ran)) < len(msgs) && time.Now().Before(deadline) && !stuck {
+		time.Sleep(200 * time.Microsecond)
+	}
+	time.Sleep(2 * time.Millisecond)
+	rec.ev(E{"ev": "quiesce", "ran": int(atomic.LoadInt32(&ran)), "expect": len(msgs), "stuck": stuck, "s": 0, "i": 0})
+	a.Close()
+	return rec.flush(w)
+}
+
 func c12Main(args []string) error {
 	switch args[0] {
 	case "record":
@@ -342,6 +430,24 @@ func c12Main(args []string) error {
 				n += c12CloseWithBacklog(w, kind, K)
 				runs++
 			}
+		}
+		var lw sync.WaitGroup
+		longs := make([]*recorder, 4)
+		for i := 0; i < 4; i++ { // the four long runs side by side (each takes 1.25 s)
+			lw.Add(1)
+			go func(i int) {
+				defer lw.Done()
+				longs[i] = c12LongFirst([]string{"handler", "actor"}[i%2], i/2)
+			}(i)
+		}
+		for _, K := range []int{0, 4} {
+			n += c12NilMessages(w, K)
+			runs++
+		}
+		lw.Wait()
+		for _, r := range longs {
+			n += r.flush(w)
+			runs++
 		}
 		for r := 0; r < rounds; r++ {
 			for _, kind := range []string{"handler", "actor"} {
